@@ -608,6 +608,11 @@ def pair_features():
               "\tadd\tv0, v0, v1", "\tmov\tg, sv", "\tmov\ti64:16(p), v0", "\tret\tv0"]
         fs[f"global_{h}"] = ([], ["A:\tfunc\ti64, i64:p, i64:n", f"\tglobal\ti64:g:{h}", PAIR_LOCALS, "\tlocal\ti64:sv"]
                              + gb + ["\tendfunc"], ["A"])
+    # tied to a call-clobbered hard register, with a call while the variable holds a value
+    fs["global_r9_call"] = (["\timport\text_log", "p_log:\tproto\ti64:v"],
+                            ["A:\tfunc\ti64, i64:p, i64:n", "\tglobal\ti64:g:r9", PAIR_LOCALS, "\tlocal\ti64:sv",
+                             "\tmov\tsv, g", "\tadd\tv0, n, 11", "\tmov\tg, v0", "\tcall\tp_log, ext_log, v0",
+                             "\tadd\tv0, v0, 5", "\tmov\tg, sv", "\tmov\ti64:16(p), v0", "\tret\tv0", "\tendfunc"], ["A"])
     fs["alloca"] = ([], A("i64:q", ["\tand\tv1, n, 7", "\tadd\tv1, v1, 2", "\tmul\tv1, v1, 16", "\talloca\tq, v1",
                                     "\tmov\ti64:8(q), v0", "\tmov\ti64:(q), n", "\tadd\tv0, v0, i64:8(q)",
                                     "\tadd\tv0, v0, i64:(q)"]), ["A"])
@@ -645,13 +650,20 @@ def pair_module(feature, victim):
     return "\n".join(["mp:\tmodule", "\texport\tA, B"] + pre + a + b + ["\tendmodule"]) + "\n", gens
 
 
-def pair_plans(path, level, gens):
+def pair_plans(path, level, gens, other_level=None):
     """single plans (one process each): B alone, A(+helpers) alone, A..B, B..A, A B A' (B between), interp"""
     head = [f"OPT {level}", f"SCAN {path}", "LOADLINK interp", "SNAP s0"]
     ca = [f"CALL {i} A {n}" for i, n in enumerate((0, 1, 5, 6))]
     cb = [f"CALL {i} B {n}" for i, n in enumerate((0, 1, 5, 6))]
     ga = [f"GEN {g}" for g in gens]
+    extra = {}
+    if other_level is not None and other_level != level:
+        # the optimization level changes between functions of one context (and back)
+        o1, o2 = [f"OPT {other_level}"], [f"OPT {level}"]
+        extra = {"A_B_levels": head + ga + o1 + ["GEN B"] + ca + cb + o2 + ["GEN A", "GEN B"] + ca + cb + ["CHECKTEXT end"],
+                 "B_A_levels": head + ["GEN B"] + o1 + ga + cb + ca + ["CHECKTEXT end"]}
     return {
+        **extra,
         "solo_A": head + ga + ca + ["CHECKTEXT end"],
         "solo_B": head + ["GEN B"] + cb + ["CHECKTEXT end"],
         "A_B": head + ga + ["GEN B"] + ca + cb + ["GEN A", "GEN B"] + ca + cb + ["CHECKTEXT end"],
